@@ -499,6 +499,28 @@ def c15(report, rng, tier, findings):
                 continue
             if k != 1:
                 continue
+        if tries % 5 == 2:
+            # a CORRELATED an(...) whose own variable is what the enclosing query selects, the outer variable (bound by the
+            # comparison's other operand) is not selected: x.f op an(entity(z, (z.a == x.a) | c(z))).g, rows are z
+            corr = ('cmp', rng.choice(('eq', 'eq', 'ne', 'lt')), ('attr', rng.choice('ab'), ('var', z)),
+                    ('attr', rng.choice('ab'), ('var', x)))
+            inner_c = rng.choice([('or', corr, gz.atom()), ('or', gz.atom(), corr), ('and', corr, gz.atom()), corr,
+                                  ('or', corr, ('and', gz.atom(), gz.atom()))])
+            f, g_ = rng.choice('ab'), rng.choice('ab')
+            op = rng.choice(('eq', 'eq', 'ne', 'lt', 'ge'))
+            sqc = ('subq', 'an', z, inner_c)
+            atom_i = ('cmp', op, ('attr', f, ('var', x)), ('attr', g_, sqc))
+            atom_e = ('cmp', op, ('attr', f, ('var', x)), ('attr', g_, ('var', z)))
+            if rng.random() < 0.3:
+                atom_i = ('cmp', MIRROR_OP[op], atom_i[3], atom_i[2])
+                atom_e = ('cmp', MIRROR_OP[op], atom_e[3], atom_e[2])
+            sel_ = [('var', z)] if rng.random() < 0.7 else [('var', z), ('var', x)]
+            case = dict(base)
+            case.update({'sel': sel_, 'entity': len(sel_) == 1, 'cond': [atom_i],
+                         'explicit': {**base, 'sel': sel_, 'entity': len(sel_) == 1, 'cond': [inner_c, atom_e]},
+                         'operand_quant': 'an_correlated_rows_are_its_own_variable'})
+            ocases.append(case)
+            continue
         if rng.random() < 0.25:
             # a CORRELATED the(...): the sub-query mentions the outer variable, which an earlier conjunct has bound, and
             # has exactly one solution per outer value (z.ref is a permutation of the objects): x.f op the(entity(z, z.ref == x)).g
@@ -557,6 +579,36 @@ def c15(report, rng, tier, findings):
             atom_e = ('cmp', atom_e[1], atom_e[3], atom_e[2]) if atom_e[1] in ('eq', 'ne') else atom_e
         extra = [gx.atom()] if rng.random() < 0.4 else []
         case = dict(base)
+        if quant == 'an' and tries % 7 == 3:
+            # the comparison with a CORRELATED sub-query operand is the LEFT side of a disjunction: under an outer value for
+            # which the sub-query has no solution the comparison is false, the right side decides
+            corr = ('cmp', rng.choice(('eq', 'eq', 'lt', 'ne')), ('attr', rng.choice('ab'), ('var', z)),
+                    ('attr', rng.choice('ab'), ('var', x)))
+            inner_c = rng.choice([corr, ('and', corr, gz.atom())])
+            op = rng.choice(('eq', 'ne', 'lt', 'ge'))
+            g_ = rng.choice('ab')
+            if rng.random() < 0.5:
+                sqc, rhs_e = ('subq', 'an', ('attr', g_, ('var', z)), inner_c), ('attr', g_, ('var', z))
+                atom_i = ('cmp', op, ('attr', 'a', ('var', x)), sqc)
+            else:
+                sqc, rhs_e = ('subq', 'an', z, inner_c), ('attr', g_, ('var', z))
+                atom_i = ('cmp', op, ('attr', 'a', ('var', x)), ('attr', g_, sqc))
+            atom_e = ('cmp', op, ('attr', 'a', ('var', x)), rhs_e)
+            other = gx.atom()
+            case = dict(base)
+            case.update({'sel': [('var', x)], 'entity': True, 'cond': [('or', atom_i, other)],
+                         'explicit': {**base, 'sel': [('var', x)], 'entity': True,
+                                      'cond': [('or', ('and', inner_c, atom_e), other)]},
+                         'operand_quant': 'an_correlated_left_of_a_disjunction'})
+            # (attribution of known finding C15-F1: the outer values under which the sub-query has NO solution)
+            try:
+                orc = surface.Oracle({**base, 'sel': [('var', x), ('var', z)], 'entity': False, 'cond': [inner_c], 'quant': 'an'})
+                with_sol = {r[0] for r in orc.rows()}
+                case['f1_without_solution'] = [v for v in base['vars'][x][2] if tuple(v) not in {tuple(w) for w in with_sol}]
+            except Exception:
+                continue
+            ocases.append(case)
+            continue
         if quant == 'an' and rng.random() < 0.3:
             # the comparison with the sub-query operand is the LEFT side of a disjunction (its false outputs are asked for)
             other = gx.atom()
@@ -579,6 +631,18 @@ def c15(report, rng, tier, findings):
             drv = {**drv}
             drv.pop('l2', None)
             super().__call__(case, res, drv)
+
+        def violation(self, what, case, **kw):
+            # known finding C15-F1: exactly the outer values under which the correlated sub-query operand has no solution are
+            # lost (anything else - a wrong row, another value missing - is reported)
+            if case.get('operand_quant') == 'an_correlated_left_of_a_disjunction' and what.startswith('rows differ') and \
+                    isinstance(kw.get('observed'), list) and isinstance(kw.get('expected'), list):
+                obs, want = kw['observed'], kw['expected']
+                empty = {f'o{v[1]}' for v in case.get('f1_without_solution', ())}
+                missing = [r for r in want if r not in obs]
+                if missing and all(r in want for r in obs) and all(r in empty for r in missing) and self.known('C15-F1'):
+                    return
+            super().violation(what, case, **kw)
     run_query_cases(report, ocases, {'caching': (False, True), 'evals': 1},
                     OJ(report, findings, 'C15', nontrivial=nontrivial_filter))
     return ['EqlModel.Props.C15'], [
@@ -955,6 +1019,36 @@ def c16(report, rng, tier, findings):
                     'vars': [(0, 'A', raw), (1, 'B', [('o', npar + j) for j in range(extra)])], 'quant': 'an',
                     'sel': sel2, 'cond': conds2 or None, 'entity': len(sel2) == 1, 'two_vars': True}
             report.count('with_a_second_variable')
+        if i % 9 == 4:
+            # the PARENT is a query result that is not selected: flatten(an(entity(p, p.a op k)).items), the element alone
+            # (optionally with a condition on it); the explicit twin ranges over the parents that satisfy the condition
+            pq = ('cmp', rng.choice(('ge', 'le', 'ne', 'eq')), ('attr', 'a', P), ('lit', ('i', rng.randint(0, 3))))
+            base_ = {'id': f'c{i}', 'classes': case['classes'], 'objs': objs, 'vars': [(0, 'A', raw)], 'quant': 'an'}
+            keep = [v for v in raw if surface.Oracle({**base_, 'sel': [P], 'cond': None}).holds(pq, {0: v})]
+            Es = ('flat', 100, ('attr', 'items', ('subq', 'an', 0, pq)))
+            with_c = rng.random() < 0.5
+            case = {**base_, 'sel': [Es], 'cond': [('cmp', ec[1], Es, ec[3])] if with_c else None, 'entity': True}
+            case['explicit'] = {**base_, 'vars': [(0, 'A', keep)], 'sel': [E], 'cond': [ec] if with_c else None, 'entity': True}
+            report.count('parent_is_an_unselected_query_result')
+        if i % 9 == 7 and not cont_el and not case.get('two_vars'):
+            # the condition on the element stands INSIDE a sub-query over the parent that does not select the element, while
+            # the enclosing query selects it: an(set_of([p, e], an(entity(p, e op k)))) means the condition written in place
+            inner = rng.choice([ec, ('and', pc, ec), ('or', ec, ('cmp', 'eq', E, ('lit', ('i', rng.randint(0, 4)))))])
+            sq = ('sub', (P,), inner)
+            shape = rng.choice(('alone', 'and', 'and_sub', 'or_sub'))
+            pc2 = ('cmp', rng.choice(('ge', 'le', 'ne')), ('attr', 'a', P), ('lit', ('i', rng.randint(0, 3))))
+            if shape == 'alone':
+                ci, ce = [sq], [inner]
+            elif shape == 'and':
+                ci, ce = [('and', sq, pc2)], [('and', inner, pc2)]
+            elif shape == 'and_sub':
+                ci, ce = [('and', sq, ('sub', (P,), pc2))], [('and', inner, pc2)]
+            else:
+                ci, ce = [('or', sq, ('sub', (P,), pc2))], [('or', inner, pc2)]
+            sel_ = rng.choice(([P, E], [E, P], [P, E]))
+            case = {**case, 'sel': sel_, 'cond': ci, 'entity': False}
+            case['explicit'] = {**case, 'cond': ce}
+            report.count('element_constrained_inside_a_subquery_that_does_not_select_it')
         cases.append(case)
         if rng.random() < 0.4:
             cases[-1]['pre_take'] = rng.randint(1, 4)
